@@ -49,7 +49,7 @@ let parse (inp : string list) : case =
   let lmode = ref 0 and ln = ref 0 in
   let body = List.filter (fun g -> match g with
     | [] -> false
-    | ["L"; m; k] -> lmode := int_of_string m; ln := int_of_string k; false
+    | "L" :: m :: k :: _ -> lmode := int_of_string m; ln := int_of_string k; false
     | "L" :: _ -> false
     | "V" :: r -> vals0 := pairs r; false
     | "S" :: ep :: blk :: r -> pol := ((nz ep, nz blk), pairs r) :: !pol; false
@@ -137,6 +137,7 @@ let listens mode n k = match mode with 1 -> k >= n | 2 -> k mod 2 = 1 | _ -> tru
 let block_counter = ref 0      (* blocks seen so far in the run being printed (application-lifetime counter) *)
 let block_toks c (b : block) =
   incr block_counter;
+  if c.listen_mode = 3 then [] else      (* the application has no BeginBlock: it is told nothing *)
   [ "A" ^ evname c b.b_atropos;
     "c" ^ String.concat "," (List.map tok_of_n b.b_cheaters);
     (if listens c.listen_mode c.listen_n !block_counter then "d" ^ String.concat "," (List.map (evname c) b.b_delivered) else "dX");
@@ -170,7 +171,9 @@ let obs_toks c (o : obs) : string list * bool (*dead*) =
 let model_run c (smp : n -> n list option) (els : elem list) : string list list =
   block_counter := 0;
   let ops = List.filter_map (function Mop (_, o) -> Some o | Nodef -> None) els in
-  let obs = ref (Model.run c.fccap c.pol smp (start c.epoch0 c.vals0) ops) in
+  (* listen mode 3: no BeginBlock, hence no EndBlock either: no sealing rule applies *)
+  let pol = if c.listen_mode = 3 then [] else c.pol in
+  let obs = ref (Model.run c.fccap pol smp (start c.epoch0 c.vals0) ops) in
   let dead = ref false in
   List.filter_map (fun el ->
     if !dead then None else
@@ -356,8 +359,9 @@ let eval_with (pid : string) (smp : n -> n list option) inp obs : verdict =
   let flat gs = List.concat (List.mapi (fun i g -> if i = 0 then g else ";" :: g) gs) in
   let model_obs = flat mm @ (match c.alt with Some _ -> "||" :: flat ma | None -> []) in
   let ig, iag = split_obs obs in
-  let si = spec_on pid c ig iag in
-  let sm = spec_on pid c mm ma in
+  let blind = { ok = true; nontriv = false; why = "no BeginBlock: nothing reported" } in
+  let si = if c.listen_mode = 3 then blind else spec_on pid c ig iag in
+  let sm = if c.listen_mode = 3 then blind else spec_on pid c mm ma in
   let defs_ok = (pid <> "C04") || fc_defs_agree c (pair_trace c.main mm) in
   { default_verdict with model_obs; spec_ok = Some si.ok; model_spec_ok = sm.ok && defs_ok; nontrivial = si.nontriv;
     note = (if not defs_ok then "fc_graph <> FcSpec.fc_spec on this DAG" else if si.ok then "" else "spec(" ^ si.why ^ ") fails on impl") }
